@@ -72,3 +72,30 @@ fn tinylfu_new_small_sizes() {
     }
     core::mem::forget(t);
 }
+
+#[kani::proof]
+#[kani::unwind(10)]
+fn tinylfu_clone_is_identical_then_independent() {
+    // arbitrary valid estimator state (small sketch, one-word doorkeeper)
+    let nbytes: usize = kani::any();
+    kani::assume(nbytes == 1 || nbytes == 2 || nbytes == 4);
+    let locs: u64 = kani::any();
+    kani::assume(locs >= 1 && locs <= 2);
+    let samples: usize = kani::any();
+    let w: usize = kani::any();
+    kani::assume(samples >= 1 && samples <= 4 && w < samples);
+    kani::cover!(w > 0, "clone taken inside a sample window");
+    let mut t: TinyLFU<u8, ByteKeyHasher> = TinyLFU::verif_small(kani::any(), nbytes, kani::any(), kani::any(), locs, samples, w, ByteKeyHasher);
+    let pre = t.verif_abs();
+    let mut c = t.clone();
+    assert!(c.verif_abs() == pre, "[C16.estimator] a cloned TinyLFU has the same window position, sample size, sketch counters and doorkeeper bits");
+    // the same access recorded on both yields the same state again; the other copy is not affected
+    let h: u64 = kani::any();
+    c.increment_hashed_key(h);
+    assert!(t.verif_abs() == pre, "[C16.independent] recording an access on the clone does not affect the original");
+    t.increment_hashed_key(h);
+    assert!(t.verif_abs() == c.verif_abs(), "[C16.estimator] the same operation applied to both copies produces identical estimator states");
+    drop(c);
+    assert!(t.estimate_hashed_key(h) <= 16, "[C16.independent][C03.uaf] the original stays usable after the clone is dropped");
+    core::mem::forget(t);
+}
